@@ -27,6 +27,9 @@ SHAPES = {
     "non-ascii": "é{i}=ü {i}",
     "num-3-nl": "3=\nv{i}\n",
     "num-5": "5=v{i}",
+    "named-inner-nl": "n{i}=v{i}\nw{i}",
+    "num-inner-nl": "4=v{i}\n\nw",
+    "named-tabs": "\tt{i}\t=\tv{i}\t",
 }
 SHAPE_NAMES = list(SHAPES)
 WS = " \t\n\r"
@@ -142,7 +145,8 @@ def shape_class(shapes):
     for s in shapes:
         if s.startswith("num-"):
             kinds.add("numeric")
-        elif s in ("named", "named-blanks", "two-word-key", "non-ascii"):
+        elif s in ("named", "named-blanks", "two-word-key", "non-ascii",
+                   "named-inner-nl", "named-tabs"):
             kinds.add("named")
         else:
             kinds.add("positional")
@@ -184,7 +188,8 @@ def check_list(ctx, shapes):
 def nontrivial(shapes):
     kinds = shape_class(shapes)
     ws = any(s in ("lead-blank", "trail-blank", "lead-newline", "named-blanks",
-                   "two-word-key", "num-3-nl") for s in shapes)
+                   "two-word-key", "num-3-nl", "named-inner-nl",
+                   "num-inner-nl", "named-tabs") for s in shapes)
     return "+" in kinds or ws
 
 
@@ -248,10 +253,11 @@ def run(run):
         run.merge(d)
     run.exhaustive = True
     run.rule = (
-        "All argument lists of length <= 3 over 15 argument shapes "
+        "All argument lists of length <= 3 over 18 argument shapes "
         "(positional plain / leading blank / trailing blank / leading newline "
         "/ inner newline; named plain / blank-padded / two-word key / "
-        "non-ASCII; numeric names 2, 02, 0, -1, 3 with newlines, 5), names "
+        "non-ASCII / inner newline in the value / tab-padded; numeric names 2, "
+        "02, 0, -1, 3 with newlines, 4 with inner newlines, 5), names "
         "and values made distinct per position, plus Hypothesis lists of "
         "length 4-6; lists whose arguments resolve to one key are outside the "
         "precondition and counted. Oracle: TemplateNode.template_parameters, "
